@@ -527,7 +527,49 @@ fn cli_family(rep: &mut Report) {
             }
         }
     }
-    rep.cov("cli_target_list_comes_from_the_flag_only", json!({"process_runs": jobs.len(), "flag_values": ["absent", "a", "b", "a,b"], "config_files": ["none", "target_os = [a]", "target_os = [b] + other keys", "other keys only"], "found_via": ["-c", "working directory"], "languages": ["typescript", "swift"], "judgements": judged}));
+    // what a successful run leaves at the output path obeys the rule as well: a run whose target list rejects every
+    // annotated item, onto the output of an earlier run without a list, either fails or leaves a file without those items
+    {
+        const ALL_A: &str = "#![cfg(target_os = \"a\")]\n#[typeshare]\npub struct FileLevelA { pub x: u32 }\n";
+        const ALL_A2: &str = "#[typeshare]\n#[cfg(target_os = \"a\")]\npub struct OnlyA { pub x: u32 }\n#[typeshare]\n#[cfg(not(target_os = \"b\"))]\npub enum NotB { One, Two }\n";
+        // (language arguments: Kotlin also without any package, where an empty result is zero bytes)
+        let langs: Vec<(&str, Vec<String>, &str)> = vec![
+            ("kotlin-without-package", vec![s("--lang"), s("kotlin")], "kt"),
+            ("kotlin", cli::lang_args(Lang::Kotlin), "kt"),
+            ("typescript", cli::lang_args(Lang::TypeScript), "ts"),
+            ("swift", cli::lang_args(Lang::Swift), "swift"),
+            ("go", cli::lang_args(Lang::Go), "go"),
+        ];
+        let results = par_map(&langs, report::threads(), |(_, largs, ext)| {
+            let sc = Scratch::new("c13s");
+            sc.write("ws/app/src/gated.rs", ALL_A.as_bytes());
+            sc.write("ws/app/src/lib.rs", ALL_A2.as_bytes());
+            sc.mkdir("out");
+            let out = sc.path(&format!("out/types.{ext}"));
+            let mut a1 = largs.clone();
+            a1.extend([s("-o"), out.to_string_lossy().into_owned(), sc.path("ws").to_string_lossy().into_owned()]);
+            let r1 = run_cli(&a1, &sc.root, &[], cli::TIMEOUT);
+            let first = std::fs::read_to_string(&out).unwrap_or_default();
+            let mut a2 = largs.clone();
+            a2.extend([s("--target-os"), s("b"), s("-o"), out.to_string_lossy().into_owned(), sc.path("ws").to_string_lossy().into_owned()]);
+            let r2 = run_cli(&a2, &sc.root, &[], cli::TIMEOUT);
+            let second = std::fs::read_to_string(&out).unwrap_or_default();
+            (r1.class(), first, r2.class(), second, r2.stderr.chars().take(300).collect::<String>(), a2)
+        });
+        for ((name, _, _), (c1, first, c2, second, stderr, argv)) in langs.iter().zip(results.iter()) {
+            judged += 1;
+            let defines = |t: &str| ["FileLevelA", "OnlyA", "NotB"].iter().filter(|n| t.split(|c: char| !c.is_alphanumeric() && c != '_').any(|w| w == **n)).count();
+            if *c1 != "ok" || defines(first) != 3 {
+                rep.vios.add(Violation { sig: format!("C13|cli|{name}|run-without-target-list|items-generated={}|exit={c1}", defines(first)), detail: json!({"observation": "without --target-os nothing is filtered", "output": first}) });
+            } else if *c2 == "ok" && defines(second) != 0 {
+                rep.vios.add(Violation {
+                    sig: format!("C13|cli|{name}|run-that-rejects-everything-succeeds-and-leaves-rejected-items|items-left={}", defines(second)),
+                    detail: json!({"argv": argv, "exit": c2, "stderr": stderr, "output_path_after_the_run": second, "observation": "--target-os b rejects every annotated item; the run reported success, and the file at the output path still defines them"}),
+                });
+            }
+        }
+    }
+    rep.cov("cli_target_list_comes_from_the_flag_only", json!({"process_runs": jobs.len(), "flag_values": ["absent", "a", "b", "a,b"], "config_files": ["none", "target_os = [a]", "target_os = [b] + other keys", "other keys only"], "found_via": ["-c", "working directory"], "languages": ["typescript", "swift"], "plus": "a run that rejects everything, onto the output of an earlier run (Kotlin with and without a package, TypeScript, Swift, Go)", "judgements": judged}));
     rep.cov_add("evaluations", judged);
     rep.cov_add("traces_validated_against_impl", jobs.len() as u64);
 }
